@@ -324,6 +324,13 @@ CellsCoverTheBox ==
             /\ (p[2] = bb.x0 => c = 0) /\ (p[2] = bb.x1 => c = inp.mx - 1)
             /\ r * (bb.y1 - bb.y0) <= (bb.y1 - p[1]) * inp.my /\ (bb.y1 - p[1]) * inp.my <= (r + 1) * (bb.y1 - bb.y0)
             /\ c * (bb.x1 - bb.x0) <= (p[2] - bb.x0) * inp.mx /\ (p[2] - bb.x0) * inp.mx <= (c + 1) * (bb.x1 - bb.x0)
+\* SCALE AND SHIFT: the table is the same when every coordinate is multiplied by s and moved by d (the tick length and the
+\* origin of the lattice are not inputs of anything the mapper publishes)
+Moved(p, s, d) == << p[1] * s + d[1], p[2] * s + d[2] >>
+CellsScaleAndShiftFree ==
+    phase = "weighted" =>
+        \A s \in {2, 3, 1024} : \A d \in {<< 0, 0 >>, << -4096, 1000 >>} :
+            RectTable([q \in DOMAIN inp.pos |-> Moved(inp.pos[q], s, d)], inp.my, inp.mx) = tab
 RowsNonNegative == phase = "dense" => \A i \in 1 .. NPix : \A c \in 1 .. PP : mat[i][c] >= 0
 RowsSumToOne == phase = "dense" => \A i \in 1 .. NPix : SumOver(1 .. PP, LAMBDA c : mat[i][c]) = DRow(tab, inp.sub, i)
 \* the accumulated matrix is the defined one: entry (i,c) counts the sub-pixels of i whose cell is c
@@ -438,6 +445,21 @@ ProbesSeparateTheSides ==
             /\ ~ \E t \in inp.T : Inside(inp.V, t, qp) /\ Inside(inp.V, t, qm)
             /\ HullEdge(inp.V, {e[1], e[2]}) => (InHull(inp.V, qp) # InHull(inp.V, qm))
             /\ ~ HullEdge(inp.V, {e[1], e[2]}) => (InHull(inp.V, qp) /\ InHull(inp.V, qm))
+\* SCALE AND SHIFT: validity, containment and the weights are the same when every coordinate (vertices and query point,
+\* its offset included) is multiplied by s and moved by d: areas scale by s^2 above and below the fraction bar
+MovedQ(q, s, d) == << q[1] * s + d[1], q[2] * s + d[2], q[3] * s, q[4] * s, q[5] >>
+DelaunayScaleAndShiftFree ==
+    Judged =>
+        /\ ValidSimplices([k \in DOMAIN inp.V |-> Moved(inp.V[k], 2, << -7, 5 >>)], inp.T) = tab.valid
+        /\ tab.valid =>
+              \A sd \in { << 2, << -7, 5 >> >> } :
+                  LET s == sd[1]  d == sd[2]
+                      W == TLCEval([k \in DOMAIN inp.V |-> Moved(inp.V[k], s, d)]) IN
+                  \A q \in Queries(inp.V, inp.T) : \A t \in inp.T :
+                      /\ Inside(W, t, MovedQ(q, s, d)) = Inside(inp.V, t, q)
+                      /\ BaryNum(W, t, MovedQ(q, s, d)) = [j \in 1 .. 3 |-> s * s * BaryNum(inp.V, t, q)[j]]
+                      /\ BaryDen(W, t, MovedQ(q, s, d)) = s * s * BaryDen(inp.V, t, q)
+                      /\ \A k \in VIdx(inp.V) : IsNearest(W, k, MovedQ(q, s, d)) = IsNearest(inp.V, k, q)
 \* the adjacency read off the simplices is symmetric and gives every vertex at least two neighbours
 SimplexAdjacencySymmetric ==
     (Judged /\ tab.valid) =>
